@@ -281,6 +281,8 @@ class UnitBuild:
             counts["R8"] = counts.get("R8", 0) + 1
             self.carved.append({"stub": cv["stub"], "token": cv["token"], "sha256": sha})
         run("R7", RW.r7_smallvec)
+        if cfg.get("field_store"):
+            run("R1b", RW.r1b_field_store)
         run("R5", RW.r5_debug_assert)
         run("R6", RW.r6_panics)
         if "slice_scrutinee" in cfg:
